@@ -353,6 +353,22 @@ def history_scenarios():
     for seq in seqs:
         ops = mk_ops([{'op': 'new', 'obj': 0}, call(0, 'connect')] + [dict(o) for o in seq])
         yield {'prop': PROP, 'world': world, 'ops': ops, 'faults': {}}
+    # one object, some 1500 exchanges, idle gaps in between, replies already buffered when write() returns
+    import random as _r
+    r2 = _r.Random('c05-long')
+    ops = [{'op': 'new', 'obj': 0}, call(0, 'connect')]
+    for k in range(600):
+        m = r2.choice(['var_read', 'query_steps', 'query_voltage', 'motors_query_enabled', 'clear_steps', 'var_write',
+                       'query', 'command', 'query_statusbyte', 'pen_raise', 'var_read_int32'])
+        a, kw = E3_METHODS[m](r2)
+        if m == 'command' and req_name(a[0]).lower() in ('rb', 'bl', 'r'):
+            a = ['CS']
+        ops.append(call(0, m, a, kw))
+        if k % 40 == 7:
+            ops.append({'op': 'env', 'what': 'idle', 'seconds': r2.choice([2, 9, 600])})
+    for lat in ('half', 'instant'):
+        yield {'prop': PROP, 'world': dict(world, reply_latency=lat), 'ops': mk_ops([dict(o) for o in ops]),
+               'faults': {}, 'io_cap': 100000}
     # a second object must record its own failure although another object failed before it
     for kind in ('drop', 'err_bang', 'stale_instead', 'raise'):
         for m2, a2 in (('command', ['SM,10,1,1']), ('query', ['QS']), ('var_write', [1, 2]), ('query_voltage', [])):
@@ -465,6 +481,7 @@ def gen(rng, idx):
         return gen_two(rng, idx)
     mode = 'conforming' if rng.random() < 0.4 else 'faulty'
     world = simple_world(rng, fw=rng.choice(FW_OK))
+    world['reply_latency'] = rng.choice(['half', 'half', 'instant'])
     ops = []
     n_ep = rng.randint(1, 3)
     enabled = rng.sample(['drop', 'drop_request', 'err_bang', 'err_named', 'stale_instead', 'stale_hex',
@@ -475,6 +492,8 @@ def gen(rng, idx):
         ops.append(call(ep, 'connect'))
         n = rng.randint(1, 8)
         for j in range(n):
+            if rng.random() < 0.06:
+                ops.append({'op': 'env', 'what': 'idle', 'seconds': rng.choice([1, 3, 30, 3600])})
             if rng.random() < 0.12:
                 ops.append({'op': 'env', 'what': 'set', 'port': world['boards'][0]['port'],
                             'state': {'voltage': rng.choice([0, 100, 249, 250, 251, 300, 1023]),
